@@ -7,9 +7,13 @@ expressed as: evaluation of the dispatch root chain equals the evaluation of `c`
 the endpoint chains are not part of the dispatch chain set, `evalChain` reports `.missing c`
 (control left the dispatch chains towards exactly `c`).
 
-Naming: the nftables theorems (`workload_dispatch_exact_nft`, `nft_dispatch_after_history`,
-`maps_apply_exact`) and the name theorems are full strength.  The prefix-tree theorems are
-`…_partial`: they carry the guard "no configured name ends in the wildcard byte", without which
+Naming: `workload_dispatch_exact_nft` (static rendering + verdict map contents = `DispatchMappings`)
+and the name theorems are full strength.  The two map-tracking theorems `maps_apply_exact_partial`
+and `nft_dispatch_after_history_partial` are `…_partial` because the model of `felix/nftables/maps.go`
+behind them is an idealisation (see their doc-comments): one successful `Apply()` from an arbitrary
+tracked state; resync, failed transactions and retries are not modelled — the real `Maps` / `Table`
+code is exercised through histories by the harness over the knftables fake instead.
+The prefix-tree theorems are `…_partial`: they carry the guard "no configured name ends in the wildcard byte", without which
 the property is false of the code (a name `c+` is rendered as the pattern `c+`, see the last
 `example`; unreachable for Calico-generated interface names), and the host theorem covers
 `HostDispatchChains(endpoints, default, applyOnForward = false)` only.
@@ -363,9 +367,19 @@ theorem host_dispatch_exact_partial (dp : Dataplane) (names : List Bytes) (dflt 
 
 /-! ### nftables: the verdict maps through histories of workload sets -/
 
-/-- **`AddOrReplaceMap` + `Apply()` converges from ANY prior state of the map**: afterwards the
-kernel holds exactly the new member set — nothing at all when the new set is empty. -/
-theorem maps_apply_exact (s : MapState) (m : List Member) (e : Member) :
+/-- **`AddOrReplaceMap` + one successful `Apply()` converges from any prior TRACKED state of the
+map**: afterwards the (tracked) kernel content is exactly the new member set — nothing at all when
+the new set is empty.
+
+`_partial`, and modest: the model (`Model/C10.lean`, `MapState`) is
+`desired := m; dataplane := (dataplane \ toDel) ++ toAdd`, so this theorem is little more than the
+set algebra of that definition (`(D \ (D \ m)) ∪ (m \ D) = m`).  What it does NOT cover:
+`Dataplane()` is taken to be the real kernel content (no out-of-band change, no
+`LoadDataplaneState` resync), every transaction succeeds (no failure / retry paths), and "any
+history" only means "any start value of the tracked state".  Whether the real `maps.go` computes
+these sets (e.g. the seeded early return of `AddOrReplaceMap` on the empty set) is checked by the
+harness on the real `nftables.Maps` over the knftables fake, not by this theorem. -/
+theorem maps_apply_exact_partial (s : MapState) (m : List Member) (e : Member) :
     e ∈ ((s.addOrReplace m).apply).dataplane ↔ e ∈ m := mapState_apply_mem s m e
 
 /-- the kernel state of the two maps after (any history followed by) a workload-set update and
@@ -390,12 +404,14 @@ theorem setWorkloads_env (s : MapsState) (names : List Bytes) :
       simpa [Option.map_map, Function.comp_def] using h'
     · simp [h1, h2]
 
-/-- **nftables workload dispatch is exact on the resulting kernel state after ANY history** of
-workload-interface sets (including transitions to and from the empty set): once the endpoint
-manager has pushed the set `names` through `AddOrReplaceMap` and `Apply()`, a packet on a
-configured interface is handed to that interface's chain and any other interface — in particular
-one that WAS configured earlier in the history — is denied. -/
-theorem nft_dispatch_after_history (s : MapsState) (names : List Bytes) (reject : Bool) (chains : List Chain)
+/-- **nftables workload dispatch is exact on the map state reached from any prior tracked state**
+(in particular any state left by earlier workload-interface sets, including transitions to and
+from the empty set): once the endpoint manager has pushed the set `names` through
+`AddOrReplaceMap` and one successful `Apply()`, a packet on a configured interface is handed to
+that interface's chain and any other interface — in particular one that WAS configured earlier —
+is denied.  `_partial` for the same reason as `maps_apply_exact_partial`: the map tracking is the
+idealised `MapState` model (arbitrary start state; no resync, failure or retry). -/
+theorem nft_dispatch_after_history_partial (s : MapsState) (names : List Bytes) (reject : Bool) (chains : List Chain)
     (pkt : Packet) (G : Nat) (mark : Mark)
     (hc : workloadDispatchChains .nft reject names = some chains) :
     evalChain (s.setWorkloads names).env chains pkt (G + 2) chainFromWl mark =
